@@ -40,6 +40,8 @@ def cases(tier, seed):
         out.append(dict(name=f"reset-{nm}", kind="reset", shape=shape, pml=pml, T=T))
         # the same split with the step bounds given as jax arrays (the signature allows int | jax.Array)
         out.append(dict(name=f"split-{nm}-m{max(1, T // 2)}-arraytimes", kind="split", shape=shape, pml=pml, T=T, m=max(1, T // 2), array_times=True))
+    # every option combination of ArrayContainer.reset on a container that also carries a recording state
+    out.append(dict(name="reset-options-recording", kind="reset_options", shape=(3, 3, 6), pml=True, T=T))
     if tier != "quick":
         out.append(dict(name="split3-pml", kind="split3", shape=(3, 3, 6), pml=True, T=T, m=2, m2=5))
     return out
@@ -57,6 +59,8 @@ def run_case(c, case):
     shape, T = tuple(case["shape"]), case["T"]
     c.functions.update(META["functions"])
     c.bounds.update(T=T, shape=list(shape))
+    if case["kind"] == "reset_options":
+        return _reset_options(c, case)
     S = _run.scene(shape, T, pml=case["pml"])
     arr, oc, cfg, key = S["arrays"], S["objects"], S["config"], S["key"]
     fsh = arr.fields.E.shape
@@ -175,3 +179,56 @@ def run_case(c, case):
     if not e:
         raise Inconclusive("twin: un-reset run does not depend on leftovers")
     c.witness("leftovers matter without reset", sc.ne(e[0], 0), [])
+
+
+def _reset_options(c, case):
+    """ArrayContainer.reset(reset_detector_states=a, reset_recording_state=b) on a container with a recording state
+    (reversible gradient config): every leaf of fields / detector states / recording state symbolic."""
+    from fdtdx.config import GradientConfig
+    from fdtdx.interfaces.recorder import Recorder
+    shape, T = tuple(case["shape"]), case["T"]
+    S = _run.scene(shape, T, pml=case["pml"], gradient_config=GradientConfig(method="reversible", recorder=Recorder(modules=[])))
+    arr = S["arrays"]
+    if arr.recording_state is None:
+        raise Inconclusive("scene has no recording state")
+    c.functions.add("fdtd.container.ArrayContainer.reset (all option combinations, recording state present)")
+    fld, lF = _symtree("f", arr.fields)
+    ds, lD = _symtree("ds", arr.detector_states)
+    rd, lR = _symtree("rd", arr.recording_state.data)
+    rs, lS = _symtree("rs", arr.recording_state.state)
+    c.symvars += sum(x.size for x in lF + lD + lR + lS)
+
+    def flat(t):
+        return jax.tree_util.tree_leaves(t, is_leaf=jx.is_obj)
+
+    for a in (True, False):
+        for b in (True, False):
+            def f(fl, d, r_d, r_s, a=a, b=b):
+                from fdtdx.fdtd.container import RecordingState
+                x = arr.aset("fields", fl).aset("detector_states", d).aset("recording_state", RecordingState(data=r_d, state=r_s))
+                y = x.reset(reset_detector_states=a, reset_recording_state=b)
+                return y.fields, y.detector_states, y.recording_state.data, y.recording_state.state, y.inv_permittivities, y.inv_permeabilities
+            (of, od, ord_, ors, oie, oim), _ = jx.call(f, fld, ds, rd, rs)
+            tag = f"reset(det={a},rec={b})"
+
+            def replay_for(pick, want_zero, a=a, b=b):
+                def replay(m):
+                    conc = jax.tree_util.tree_map(lambda x: jnp.asarray(model_array(m, x)), (fld, ds, rd, rs), is_leaf=jx.is_obj)
+                    out = f(*conc)
+                    worst = 0.0
+                    for x, y in zip(jax.tree_util.tree_leaves(out[pick]), jax.tree_util.tree_leaves(conc[pick])):
+                        x, y = np.asarray(x), np.asarray(y)
+                        if x.size:
+                            worst = max(worst, float(np.max(np.abs(x if want_zero else x - y))))
+                    return worst > 1e-12, dict(worst_abs=worst, options=dict(reset_detector_states=a, reset_recording_state=b))
+                return replay
+            for i, x in enumerate(flat(of)):
+                c.prove_eq(f"{tag}: field leaf {i} is zero", x, np.zeros(np.shape(x)), [], replay_for(0, True), key="reset-options:fields")
+            for i, (x, y) in enumerate(zip(flat(od), lD)):
+                c.prove_eq(f"{tag}: detector leaf {i}", x, np.zeros(np.shape(x)) if a else y, [], replay_for(1, a), key="reset-options:detector_states")
+            for i, (x, y) in enumerate(zip(flat(ord_) + flat(ors), lR + lS)):
+                c.prove_eq(f"{tag}: recording leaf {i}", x, np.zeros(np.shape(x)) if b else y, [], replay_for(2, b) if i < len(lR) else replay_for(3, b), key="reset-options:recording_state")
+            c.prove_eq(f"{tag}: keeps inverse permittivities", oie, np.asarray(arr.inv_permittivities), [], None, key="reset-options:materials")
+            c.prove_eq(f"{tag}: keeps inverse permeabilities", oim, np.asarray(arr.inv_permeabilities), [], None, key="reset-options:materials")
+    v = [x for l in lF for x in l.reshape(-1) if sc.is_symbolic_scalar(x)]
+    c.witness("leftover field values are arbitrary", sc.ne(v[0], 0), [])
